@@ -1,7 +1,7 @@
 (* MultiMem.v — C05, memory, any number of handles: reproc_new at any point, calls interleaved in
    any order, destroys in any order, every fault plan; when every handle has been destroyed the
    caller's heap holds exactly the blocks it held at the beginning. *)
-From Verif Require Import Lib WorldSpec WorldSpec2 LibSpec LibSpec2 WaitSpec ParentSpec StartSpec StopSpec FdSpec MultiSpec HeapSpec MemSpec.
+From Verif Require Import Lib WorldSpec WorldSpec2 LibSpec LibSpec2 WaitSpec ParentSpec StartSpec StopSpec FdSpec HeapSpec MemSpec RunSpec MultiSpec.
 From Coq Require Import Lia.
 Local Open Scope Z_scope.
 
@@ -70,7 +70,7 @@ Lemma MB_run_mop T c L0 ck ps m w ps' w' : MI T c ps w -> MM L0 ps w -> (forall 
 Proof.
   intros HI HM Hkp Hkh E.
   assert (W : WorldSpec2.wf w) by apply HI. assert (C : w_cur w = c) by apply HI. assert (Hc : 0 <= c) by apply HI.
-  destruct m as [|i op|i]; cbn [run_mop] in E.
+  destruct m as [|i op|i|fuel argv o src s0]; cbn [run_mop] in E.
   - apply bind_inv in E as (np & w1 & E1 & E). apply ret_inv in E as [-> ->]. exact (MM_new _ _ _ _ _ HM E1).
   - destruct (split_at i ps) as [[[l1 p] l2]|] eqn:Es; [|apply ret_inv in E as [-> ->]; exact HM].
     apply split_at_app in Es. subst ps. apply bind_inv in E as (p' & w1 & E1 & E). apply ret_inv in E as [-> ->].
@@ -78,6 +78,9 @@ Proof.
   - destruct (split_at i ps) as [[[l1 p] l2]|] eqn:Es; [|apply ret_inv in E as [-> ->]; exact HM].
     apply split_at_app in Es. subst ps. apply bind_inv in E as (u & w1 & E1 & E). apply ret_inv in E as [-> ->].
     exact (MM_destroy _ _ _ _ _ _ _ HM E1).
+  - apply bind_inv in E as (x & w1 & E1 & E). apply ret_inv in E as [-> ->].
+    destruct HM as (Hq & Hn & Hb). split; [|split; assumption].
+    exact (run_ex_hq _ _ _ _ _ _ _ _ _ W ltac:(rewrite C; exact Hc) Hq E1).
 Qed.
 Lemma MB_run_mops T c L0 ck ms : forall ps w ps' w', MI T c ps w -> MM L0 ps w -> (forall q, kp c (ck q)) -> (forall q, hk true (ck q)) ->
   run_mops ck ps ms w = Ret ps' w' -> MI T c ps' w' /\ MM L0 ps' w'.
